@@ -33,7 +33,11 @@ ASSUMPTIONS = [
 ]
 NONTRIVIAL_FLOOR = 20
 PL_LOGGER = "distributed_shampoo.utils.shampoo_preconditioner_list"
-OUTCOMES = ["ok", "ok", "ok", "raise", "raise", "nan", "inf"]
+# "raise" throws before the routine runs; "raise_inner:j" lets the real routine run and makes its j-th call of torch.linalg.eigh / torch.linalg.qr throw
+# (a LAPACK failure in the middle of the computation, e.g. in the second orthogonal iteration); whether that call is reached - and whether the
+# routine's own double-precision retry absorbs it - is observed, and the model is evaluated afterwards with the set of calls that really failed
+OUTCOMES = ["ok", "ok", "ok", "raise", "raise", "nan", "inf", "raise_inner:0", "raise_inner:1", "raise_inner:2"]
+INNER_MSG = "injected inner failure"
 
 
 class _Capture(logging.Handler):
@@ -129,7 +133,7 @@ class Runner:
         active = [i for i, (pi, bi, nf) in enumerate(self.blocks) if mask[pi]]
         # ---------------- model (evaluated after the step: a successfully computed root that overflows when cast to the block dtype
         # counts as a non-finite result, which the harness can only know once the real routine has run)
-        def model(overflow: set) -> tuple:
+        def model(overflow: set, inner_fired: set = frozenset()) -> tuple:
             expect: str | None = None
             new_counter = list(self.counter)
             plan: list[str] = []
@@ -144,6 +148,8 @@ class Runner:
                     stop = False
                     for f in range(nf):
                         o = outs[call] if call < len(outs) else "ok"
+                        if o.startswith("raise_inner"):
+                            o = "raise" if call in inner_fired else "ok"
                         if o == "ok" and call in overflow:
                             o = "inf"
                         plan.append(o)
@@ -178,7 +184,7 @@ class Runner:
         poisoned_active = any(self.poisoned[i] and self.blocks[i][2] > 0 for i in active)
         # ---------------- run
         real = getattr(self.pl, self.target)
-        state = {"i": 0, "results": {}, "overflow": set()}
+        state = {"i": 0, "results": {}, "overflow": set(), "inner_fired": set()}
         pdt = gen.DT[self.cfg["pdtype"]]
 
         def fake(*a: Any, **k: Any) -> torch.Tensor:
@@ -187,7 +193,28 @@ class Runner:
             o = outs[i] if (refresh and i < len(outs)) else "ok"
             if o == "raise":
                 raise RuntimeError("injected failure")
-            r = real(*a, **k)
+            if o.startswith("raise_inner"):
+                j, cnt = int(o.split(":")[1]), {"n": 0}
+
+                def wrap(fn: Any) -> Any:
+                    def w(*aa: Any, **kk: Any) -> Any:
+                        n = cnt["n"]
+                        cnt["n"] += 1
+                        if n == j:
+                            raise RuntimeError(INNER_MSG)
+                        return fn(*aa, **kk)
+                    return w
+
+                try:
+                    with mock.patch.object(torch.linalg, "eigh", wrap(torch.linalg.eigh)), mock.patch.object(torch.linalg, "qr", wrap(torch.linalg.qr)):
+                        r = real(*a, **k)
+                except Exception as e:  # noqa: BLE001
+                    if INNER_MSG in str(e) or (e.__cause__ is not None and INNER_MSG in str(e.__cause__)) or (e.__context__ is not None and INNER_MSG in str(e.__context__)):
+                        state["inner_fired"].add(i)
+                    raise
+                o = "ok"
+            else:
+                r = real(*a, **k)
             if o in ("nan", "inf"):
                 r = r.clone(memory_format=torch.contiguous_format)
                 if r.numel():
@@ -222,7 +249,9 @@ class Runner:
             lg.removeHandler(cap)
             lg.setLevel(old_level)
             lg.disabled = old_disabled
-        expect, new_counter, plan, expect_failed_factors, expect_unchanged, expect_refreshed = model(state["overflow"])
+        expect, new_counter, plan, expect_failed_factors, expect_unchanged, expect_refreshed = model(state["overflow"], state["inner_fired"])
+        if state["inner_fired"]:
+            self.out.classes.append("failure_inside_the_matrix_routine")
         if any(self.carried[i] and self.counter[i] > 0 for i in active) and refresh:
             self.stats["carried"] += 1
         if any(c == 0 and o > 0 for c, o in zip(new_counter, self.counter)):
@@ -425,9 +454,9 @@ def step_strategy(runner: Runner):
             persistent = draw(st.sampled_from([None, 0, 0, 1]))
             outs = []
             for c in range(ncalls):
-                outs.append("ok" if kind == "clean" else draw(st.sampled_from(["ok", "ok", "raise"])))
+                outs.append("ok" if kind == "clean" else draw(st.sampled_from(["ok", "ok", "ok", "raise", "raise", "raise_inner:0", "raise_inner:1", "raise_inner:2"])))
             if persistent is not None and ncalls and kind != "clean":
-                outs[persistent % ncalls] = "raise"
+                outs[persistent % ncalls] = draw(st.sampled_from(["raise", "raise", "raise_inner:1"]))
             if kind == "poison" and ncalls:
                 outs[draw(st.integers(0, ncalls - 1))] = draw(st.sampled_from(["nan", "inf"]))
             s["outs"] = outs
